@@ -695,13 +695,8 @@ def check_case(case):
 
 
 # ------------------------------------------------------------------ known
-known.register('C05-netcdf-double-close', lambda spec, f: (
-    spec.get('kind') == 'hist' and f.klass == 'after-second-close' and
-    f.clause in ('open-handle-unreadable', 'open-handle-content')))
-
-known.register('C05-gettimes-635-inplace', lambda spec, f: (
-    spec.get('kind') == 'op' and spec['file'].get('tflag635') and
-    spec['call'].get('q') == 'getTimes' and f.klass == 'getTimes' and
-    ((f.clause == 'input-modified' and 'variable TFLAG data' in f.detail) or
-     (f.clause == 'inplace-write' and
-      f.where == 'ValueError@core/_files.py:getTimes'))))
+# No open finding.  Fixed since this check was written (regressions pinned as
+# replays/C05/fixed-*.json): netcdf.close()/__del__ double close (cf1d29e),
+# getTimes rewriting -635 dates inside TFLAG (9724d18), val2idx(method=
+# 'bounds') editing the coordinate variable (e15d699).  The klass
+# 'after-second-close' of (c) is kept because it is the non-triviality rule.
